@@ -370,7 +370,13 @@ class TCPTransport(Transport):
             self._readonlyNodesCounter += 1
 
         self._unknownConnections.discard(conn)
+        replaced = self._connections.get(node)
         self._connections[node] = conn
+        if replaced is not None and replaced is not conn and not readonly and not self._shouldConnect(node):
+            # An earlier connection that this member had dialled is not left half-alive: it is closed,
+            # so that the member notices when the connection it still uses is the one that lost (two
+            # handshakes of one member may be handled in either order) and dials again.
+            replaced.disconnect()
         conn.setOnMessageReceivedCallback(functools.partial(self._onMessageReceived, node))
         if not readonly:
             self._onNodeConnected(node)
